@@ -627,7 +627,7 @@ func c10Check(a vh.Args, o *vh.Oracle, r *vh.Result, c *c10Case) error {
 			r.Dist("op:background-reader")
 		}
 	}
-	r.Sample(map[string]interface{}{"kind": c.Kind, "shape": c.Shape, "chunks": len(c.Sizes), "script": tail(strings.Join(c.Script, ","), 120), "impl_tail": tail(obs, 80)})
+	r.Sample(map[string]interface{}{"kind": c.Kind, "shape": c.Shape, "chunks": len(c.Sizes), "script": c09Tail(strings.Join(c.Script, ","), 120), "impl_tail": c09Tail(obs, 80)})
 	if x.failTok >= 0 {
 		c.FailTok = x.failTok
 		sc := c10Shrink(a, c, x.cls)
@@ -665,9 +665,9 @@ func c10Diff(m, g string) string {
 	for i := 0; i < len(ms) && i < len(gs); i++ {
 		if ms[i] != gs[i] {
 			if i == 0 {
-				return "log: " + firstDiff(ms[i], gs[i])
+				return "log: " + c09FirstDiff(ms[i], gs[i])
 			}
-			return fmt.Sprintf("model %s, implementation %s", tail(ms[i], 100), tail(gs[i], 100))
+			return fmt.Sprintf("model %s, implementation %s", c09Tail(ms[i], 100), c09Tail(gs[i], 100))
 		}
 	}
 	return "different number of fields"
